@@ -417,6 +417,22 @@ def run(ctx):
     ctx.given("offset", pair_case(["pgu", "pgu", "pgu", "optvp", "wcvp", "optvplc"], ctx.n(60, 200), classes=["lownoise", "low_amplitude", "low_amplitude", "low_amplitude"], high_p=True),
               ctx.n(700, 8000), fn=f_off)
 
+    # a signal of a few dozen counts shifted to the far end of the stated domain (|values| + |c| close to 10000): anything in the
+    # asymmetric iteration that is measured relative to the LEVEL of the curve (a relative stop test, a relative step) shows only here
+    @st.composite
+    def small_signal_far_offset(draw):
+        import math
+        n = draw(st.integers(30, 200))
+        base, amp, period, sd = draw(st.integers(-50, 50)), draw(st.integers(5, 60)), draw(st.floats(3, 15)), draw(st.integers(1, 20))
+        noise = draw(st.lists(st.integers(-2 * sd, 2 * sd), min_size=n, max_size=n))
+        y = [int(round(base + amp * math.sin(t / period))) + noise[t] for t in range(n)]
+        g = draw(gens.gap_mask(n, classes=["none", "isolated"], min_valid=2))
+        c = draw(st.sampled_from([-1, 1])) * draw(st.integers(9000, 9800))
+        return {"variant": "pgu", "y": y, "valid": g["valid"], "nodata": gens.placeholder_for(y, g["valid"], "below"), "c": c, "ycls": "small_signal_far_offset",
+                "gcls": g["gcls"], "loglam": draw(st.floats(-1.0, 3.0)), "p": draw(st.sampled_from([0.7, 0.8, 0.9, 0.95]))}
+
+    ctx.given("offset", small_signal_far_offset(), ctx.n(800, 8000), fn=f_off, shrink=False)
+
     @st.composite
     def tyx_case(draw):
         nr, nc = draw(st.integers(1, 2)), draw(st.integers(1, 3))
